@@ -30,6 +30,15 @@ def generate(rng, tier, ctx):
                     for par in (0, 1):
                         cases.append(('xonly_tweak_add_check %s %d %s %s' % (h32(T[0]), par, pt(X), h32(t)), ('tweak_check', 'right' if par == (T[1] & 1) else 'wrong-parity')))
                     cases.append(('xonly_tweak_add_check %s %d %s %s' % (h32(T[0] ^ 1), T[1] & 1, pt(X), h32(t)), ('tweak_check', 'wrong-x')))
+    # tweak check against a NON-CANONICAL 32-byte string: the tweaked key is crafted to have a small abscissa x (internal key =
+    # lift_x(x) - t*G), so that x + p still fits in 32 bytes; only the canonical serialization x may be accepted
+    for x0 in [x for x in range(1, 40) if lift_x(x, 0) is not None][:4 * n]:
+        for _ in range(3):
+            t = rng.seckey(); T = lift_x(x0, rng.randint(0, 1)); Q = padd(T, pneg(pmul(t, G)))
+            if Q is None or Q[1] & 1: continue
+            cases.append(('xonly_tweak_add_check %s %d %s %s' % (h32(x0), T[1] & 1, pt(Q), h32(t)), ('tweak_check', 'small-x-right')))
+            cases.append(('xonly_tweak_add_check %s %d %s %s' % (h32(x0 + P), T[1] & 1, pt(Q), h32(t)), ('tweak_check', 'small-x-plus-p')))
+            break
     for cmd in ['pubkey_negate Z', 'pubkey_tweak_add Z ' + h32(1), 'pubkey_tweak_mul Z ' + h32(2), 'pubkey_tweak_mul Z ' + h32(N), 'xonly_from_pubkey Z',
                 'xonly_tweak_add Z ' + h32(1), 'xonly_tweak_add_check %s 0 Z %s' % (h32(1), h32(1)), 'keypair_xonly_pub %s Z' % h32(1),
                 'keypair_xonly_tweak_add %s Z %s' % (h32(1), h32(1)), 'keypair_xonly_tweak_add %s %s %s' % (h32(0), pt(G), h32(1))]:
